@@ -102,7 +102,7 @@ CHECKS['C20'] = {
 }
 
 CHECKS.update({
-    'C04': {'harnesses': ['harness.line_jobs'], 'lemmas': 'c04',
+    'C04': {'harnesses': ['harness.line_jobs'], 'lemmas': 'c04', 'grid_replay': True,
             'text': _LINE + 'for every listed station-kind assignment, capacity and zero pattern the recorded entry instants of every part at '
                     'every station are compared with the blocking-after-service recurrence D(j,k) built as z3 max-terms over the symbolic '
                     'cycle times and delays; equality must be valid on every path, i.e. for every tie-break order.'},
